@@ -139,6 +139,10 @@ def corpus_cases():
               "$PRED\n\"FIRST\n\" COMMON\nY=1;c\n;d\n\n", ";; x\n$SIZES LTH=3\n$PROBLEM\n$INPUT ID\n$es\n$ES 1\n", "$PK ()\nA=1\n", "$X\n$1\n",
               "$PROBLEM a\n$INPUT ID DV\n$DATA x.csv IGN=@\n$PRED\nY=THETA(1)+ETA(1)+EPS(1)\n$THETA 1\n$OMEGA 1\n$SIGMA 1\n$ABBR REPLACE THETA(CL)=THETA(1)\n"]:
         cases.append({"kind": "text", "text": t, "gen": ["src:hand"], "seed": 11})
+    # regression witness of the fixed finding F-C03-2 (c1795fa): bounds of a multi-theta record keep their spelling
+    cases.append({"kind": "model", "gen": ["src:hand-model"], "seed": 13, "text":
+                  "$PROBLEM x\n$INPUT ID DV\n$DATA none.csv IGNORE=@\n$PRED\nY=THETA(1)+THETA(2)+THETA(3)+THETA(4)+ETA(1)+EPS(1)\n"
+                  "$THETA (0.0,0.10,1E3) 1 ; two\n$THETA (-INF,1,+5.0) (0,2,INF) FIX\n$OMEGA 0.1\n$SIGMA 1\n"})
     for nm, text in corpus_files():
         cases.append({"kind": "text", "text": text, "gen": ["src:corpus", "unmutated"], "origin": nm, "seed": 3})
     for nm, text in corpus_files():
